@@ -777,6 +777,51 @@ func SingleReturnExpr(pk *packages.Package, fn *types.Func) ast.Expr {
 			}
 		}
 	}
+	return guardClauseExpr(pk, fn)
+}
+
+// guardClauseExpr: the value of a boolean predicate written as guard clauses —
+// `if C1 { return E1 }; if C2 { return E2 }; return E3` is (C1 ∧ E1) ∨ (¬C1 ∧ ((C2 ∧ E2) ∨ (¬C2 ∧ E3))).
+// nil unless every statement but the last is an if without else and without init whose body is one return.
+func guardClauseExpr(pk *packages.Package, fn *types.Func) ast.Expr {
+	sig, _ := fn.Type().(*types.Signature)
+	if sig == nil || sig.Results().Len() != 1 {
+		return nil
+	}
+	if b, ok := sig.Results().At(0).Type().Underlying().(*types.Basic); !ok || b.Kind() != types.Bool {
+		return nil
+	}
+	for _, f := range pk.Syntax {
+		for _, d := range f.Decls {
+			fd, ok := d.(*ast.FuncDecl)
+			if !ok || pk.TypesInfo.Defs[fd.Name] != types.Object(fn) || fd.Body == nil || len(fd.Body.List) < 2 || len(fd.Body.List) > 6 {
+				continue
+			}
+			n := len(fd.Body.List)
+			last, ok := fd.Body.List[n-1].(*ast.ReturnStmt)
+			if !ok || len(last.Results) != 1 {
+				return nil
+			}
+			var expr ast.Expr = &ast.ParenExpr{X: last.Results[0]}
+			for k := n - 2; k >= 0; k-- {
+				is, ok := fd.Body.List[k].(*ast.IfStmt)
+				if !ok || is.Init != nil || is.Else != nil || len(is.Body.List) != 1 {
+					return nil
+				}
+				r, ok := is.Body.List[0].(*ast.ReturnStmt)
+				if !ok || len(r.Results) != 1 {
+					return nil
+				}
+				c := &ast.ParenExpr{X: is.Cond}
+				expr = &ast.ParenExpr{X: &ast.BinaryExpr{
+					X:  &ast.ParenExpr{X: &ast.BinaryExpr{X: c, Op: token.LAND, Y: &ast.ParenExpr{X: r.Results[0]}}},
+					Op: token.LOR,
+					Y:  &ast.ParenExpr{X: &ast.BinaryExpr{X: &ast.UnaryExpr{Op: token.NOT, X: c}, Op: token.LAND, Y: expr}},
+				}}
+			}
+			return expr
+		}
+	}
 	return nil
 }
 
